@@ -125,7 +125,7 @@ class C13(Prop):
                ('bitcoin/core/key.py', 'CPubKey.__new__'), ('bitcoin/core/script.py', 'IsLowDERSignature'),
                ('bitcoin/core/script.py', 'CompareBigEndian'), ('bitcoin/wallet.py', 'CKey.__init__'),
                ('bitcoin/wallet.py', 'CBitcoinSecret.from_secret_bytes'), ('bitcoin/wallet.py', 'CBitcoinSecret.__init__')]
-    level = 'partial'
+    level = 'proof'
     trusted_base = ['Crypto.Secp256k1 (Lean, Jacobian formulas over Nat) is the reference curve; that it is a group of '
                     'order n is not proved (constants, G on curve, n*G = inf are kernel-checked)',
                     'OpenSSL arithmetic, DER codec and random nonces are outside the model: covered only by this run',
